@@ -32,29 +32,38 @@ TECHNIQUE = ("static analysis: value-fixed abstract walks of the handle codec ov
              "(control-equivalent regions), sign/direction pairing by constant evaluation of the difference expressions, dominance order of set-up calls")
 
 
-def _pure_call_eval(prog, fn, file):
-    """call_eval for eval_in: a call of a side-effect-free single-return function of `file` is its return expression over the arguments."""
+def _pure_call_eval(prog, fn, file, depth=0):
+    """call_eval for eval_in: a call of a function of `file` that writes nothing but its own locals is evaluated by a value-fixed walk
+    of its body over the arguments (temporaries, branches and nested calls included); all paths must agree on the result."""
     def call_eval(c, store):
         name = c.get("fn")
-        if not name or not prog.has_fn(name, file):
+        if not name or depth > 4 or not prog.has_fn(name, file):
             return None
         g = prog.fn(name, file)
-        if not g.cfg:
+        if not g.cfg or len(c.get("a", [])) != len(g.params):
             return None
-        rets = []
+        lnames = {l_["n"] for l_ in g.locals} | {p_["n"] for p_ in g.params}
         for b, i, x, line in g.cfg.all_elems():
-            if not isinstance(x, dict):
-                continue
-            if x.get("k") == "ret" and x.get("e") is not None:
-                rets.append(x)
-            elif any(True for _ in writes(x)):
-                return None
-        if len(rets) != 1 or len(c.get("a", [])) != len(g.params):
-            return None
+            if isinstance(x, dict):
+                for l, kind, n in writes(x):
+                    tl = strip_casts(l)
+                    if not (tl.get("k") == "ref" and tl.get("dk") in ("local", "param") and tl.get("n") in lnames):
+                        return None         # writes something that outlives the call: not a pure function of its arguments
         args = [eval_in(store, a, fn, call_eval) for a in c["a"]]
         if any(a is None for a in args):
             return None
-        return eval_in({p["n"]: v for p, v in zip(g.params, args)}, g.cfg.resolve(rets[0]["e"]), g, None)
+        inner = _pure_call_eval(prog, g, file, depth + 1)
+        rets = []
+
+        def effect(b, i, x, st):
+            if isinstance(x, dict) and x.get("k") == "ret" and x.get("e") is not None:
+                rets.append(eval_in(st, g.cfg.resolve(x["e"]), g, inner))
+            return None
+        w = AbsWalk(g, lnames, init={p_["n"]: v for p_, v in zip(g.params, args)}, effect=effect, call_eval=inner, max_states=5000)
+        w.run()
+        if not rets or any(r is None for r in rets) or len(set(rets)) != 1:
+            return None
+        return rets[0]
     return call_eval
 
 
